@@ -393,8 +393,19 @@ def rule_reader_exact(fb, res):
         for c in g.nodes():
             if c.get("k") != "bin" or c.get("op") not in ("<", "<=", ">", ">="):
                 continue
-            l = strip_all_casts(facts.expand(g, c["l"], keep=tuple(ends | lens | rviews | ralocals)))
-            r = strip_all_casts(facts.expand(g, c["r"], keep=tuple(ends | lens | rviews | ralocals)))
+            keepset = ends | lens | rviews | ralocals
+
+            def flow_expand(e, depth=2):
+                # a local that still holds what its initialiser says at this comparison (`const size_t available = end - ptr;` tested
+                # before the pointer moves) stands for that initialiser here, even if the pointer is moved later on
+                e1 = strip_all_casts(e)
+                if e1.get("k") == "ref" and e1.get("dk") == "local" and e1.get("decl") not in keepset and depth > 0:
+                    d = facts.current_definition(g, e1)
+                    if d is not None:
+                        return flow_expand(d, depth - 1)
+                return e
+            l = strip_all_casts(facts.expand(g, flow_expand(c["l"]), keep=tuple(keepset)))
+            r = strip_all_casts(facts.expand(g, flow_expand(c["r"]), keep=tuple(keepset)))
             if not any(syms(x) == "R" for e in (l, r) for x in walk(e)):
                 continue
             n += 1
@@ -420,11 +431,13 @@ def rule_reader_exact(fb, res):
                 skipped = sum(const_value(a["r"]) or 0 for a in advances
                               if (cfg.block_for(a) == cfg.block_for(c) and cfg.pos_of[a["id"]] < cfg.pos_of[c["id"]]) or
                               (cfg.block_for(a) != cfg.block_for(c) and cfg.dominates(cfg.block_for(a), cfg.block_for(c))))
+                # (a bound that demands LESS than the field needs lets the reader run past the payload: that is C03-R2b's report, not a
+                # builder/reader disagreement — stored data is still read back)
                 if d.get("R") == 1 and set(k2 for k2, v in d.items() if v) <= {"R", 1}:
-                    ok = K == 2 and skipped == 0
+                    ok = K <= 2 and skipped == 0
                     why = "room for the 2-byte length field" if ok else "demands %d bytes where the length field needs 2" % K
                 elif d.get("R") == 1 and d.get("L") == -1 and set(k2 for k2, v in d.items() if v) <= {"R", "L", 1}:
-                    ok = K == 2 - skipped
+                    ok = K <= 2 - skipped
                     why = "remaining - %d >= length read" % K if ok else "demands length + %d bytes behind a pointer that skipped %d of the 2 length-field bytes" % (K, skipped)
             res.check(ok, "C13-R6", key, c.get("loc"), why,
                       "%s: %s — a field that the builder stored in full is reported as absent" % (g.name.replace(NS, ""), why))
@@ -529,6 +542,10 @@ def run(ctx):
                         "the remaining bytes is exactly `remaining >= 2` (room for the length field) or `remaining - k >= length` with k the part of the "
                         "length field not yet skipped and `length` the value read, as linear forms — a stricter bound (padding demanded, off by one) "
                         "rejects data that setData stored correctly")
+    res.rule("C13-R7", "readers look where the builders wrote: every pointer reader of the interface status payload (count word, first id, vendor-data "
+                        "length word, vendor data) hands out, on every path and for every id count N, the position the format puts that field at — "
+                        "sizeof(Header), +2, +2+N+(N mod 2), +2 — as a linear form over data(), the count word and its parity (path-forking abstract "
+                        "interpretation with in-class helpers inlined; null only where the block is empty)")
     res.not_decided += ["getters return exactly the data supplied for every length; acceptance by the validator/decoder; arithmetic sufficiency of the size"]
 
     # ---- R1: generic Payload::setData<Header> instantiations and the forwarding builders
@@ -682,6 +699,10 @@ def run(ctx):
     for n in range(256):
         try:
             got = tables.ceval(enc, {enc.params[0]["decl"]: n})
+        except tables.OutOfTable as e:
+            if n not in want:
+                continue  # no defined result for a length that is none of the 16 valid ones: the out-of-table read itself is C02-R3's (tables)
+            got = "undefined (%s)" % e
         except tables.Unsupported as e:
             raise Broken("encodeDlc outside the table vocabulary: %s" % e)
         if n in want and got != want[n]:
@@ -790,6 +811,9 @@ def run(ctx):
                       "the resize amount does not depend on %s" % [x.split(":")[1] for x in missing])
     n6 = rule_reader_exact(fb, res)
     res.floor("C13-R6", 4, n6)
+    from rules import readers
+    n7 = readers.interface_reader_positions(fb, res, "C13-R7")
+    res.floor("C13-R7", 3, n7)
     res.floor("C13-R1", 15)
     res.floor("C13-R3", 14, n3)
     res.floor("C13-R4", 3)
